@@ -31,7 +31,8 @@ structure Elem where
   deriving Repr, Inhabited
 
 inductive JoinForm
-  | call (joiner : Toks)  -- joiner(e₁, …, eₙ)
+  | call (joiner : Toks)  -- joiner(e₁, …, eₙ)            (user-given `custom_joiner`)
+  | futJoin (mac : Toks) (isTry : Bool)   -- futures::join!(e₁, …, eₙ) / futures::try_join!(…): awaits all operands
   | tuple                 -- (e₁, …, eₙ)
   | awaitCat              -- e₁ … eₙ .await
   deriving Repr, Inhabited
